@@ -71,6 +71,28 @@ def module_tree(filename):
 _GLOBAL_SNAPSHOT = {}
 
 
+_JUDGED = []
+
+
+def _judged_names():
+    if not _JUDGED:
+        import json as _json, os as _os
+        p = _os.path.join(_os.path.dirname(_os.path.dirname(_os.path.abspath(__file__))), "module_state_names.json")
+        try:
+            _JUDGED.append(set(_json.load(open(p))))
+        except Exception:
+            _JUDGED.append(None)
+    return _JUDGED[0]
+
+
+def module_state_names():
+    """every module-level / class-level name of the modules under analysis that the snapshot covers (for the ledger)"""
+    out = []
+    for name, (mod, entry) in _GLOBAL_SNAPSHOT.items():
+        out.extend("%s.%s" % (name, k) for k in entry)
+    return sorted(out)
+
+
 def snapshot_module_state(prefixes=("gffutils",)):
     """Every path re-executes the real function from the start (decision replay) - but module-level mutable state
     (a cache dict, a registry list, a flag) would survive from the previous path and hold its symbolic values.  The
@@ -115,7 +137,14 @@ def snapshot_module_state(prefixes=("gffutils",)):
             return False
 
     def changes():
-        """names of module-level / class-level state of the modules under analysis that differs from the import-time state"""
+        """names of module-level / class-level state of the modules under analysis that differs from the import-time state.
+        Only state that EXISTS ON THE UNCHANGED TREE is judged (module_state_names.json, written with the ledger): a cache a
+        later version adds at module level is that version's own business - behaviour is what the other clauses look at."""
+        judged = _judged_names()
+        out = [c for c in _changes_all() if judged is None or c in judged]
+        return out
+
+    def _changes_all():
         out = []
         for name, (mod, entry) in _GLOBAL_SNAPSHOT.items():
             for k, rec in entry.items():
